@@ -13,16 +13,21 @@
 from __future__ import annotations
 
 import ast
+import atexit
 import collections.abc
 import copy
 import dataclasses
+import importlib.util
 import inspect
 import logging
+import os
+import shutil
 import types
 import typing
 from typing import Any, Dict, List, Optional, Tuple
 
 import bridge
+import core
 from bridge import hx
 
 logging.disable(logging.WARNING)
@@ -267,7 +272,10 @@ def ty_sx(t: Any, uni: List[type]) -> str:
         return "(Var %s)" % hx(t.__name__)
     org = typing.get_origin(t)
     if org is collections.abc.Iterable:
-        (a,) = typing.get_args(t)
+        args = typing.get_args(t)
+        if not args:
+            return "(Iter Any)"          # a bare `Iterable`: items of unknown type
+        (a,) = args
         return "(Iter %s)" % ty_sx(a, uni)
     if org is collections.abc.Callable:
         return "Callable"
@@ -456,3 +464,45 @@ def op_call(r, recv, op: str, lam_node, p_kw: float = 0.35):
     if r.random() < p_kw:
         return ast.Call(func=f, args=[], keywords=[ast.keyword(arg=_OP_KW[op], value=lam_node)])
     return ast.Call(func=f, args=[lam_node], keywords=[])
+
+
+# ------------------------------------------------------------------ queries as Python callables (registered functions with bodies)
+
+_CALL_DIR = os.path.join(core.WORK, "types-callables-%d" % os.getpid())
+atexit.register(lambda: shutil.rmtree(_CALL_DIR, ignore_errors=True))
+
+
+def callable_runner(rng, model: "Model", desc: dict, cases, bodies: Dict[str, str]):
+    """cases: [(op, lambda ast)].  Each lambda is written as the argument of its operator on its own line of a generated
+    module, which registers the model's functions again - same names, signatures and processors - with the real one-line
+    bodies ``bodies`` (name -> expression).  -> run(model, op, item_type, lambda ast), like run_impl."""
+    os.makedirs(_CALL_DIR, exist_ok=True)
+    name = "types_callables_%d" % rng.randrange(10 ** 9)
+    lines = ["# generated by harness/props/types_common.py", "from %s import *" % model.ns["__name__"], ""]
+    for f in desc.get("functions", []):
+        lines.append("@func_adl_callable(%s)" % ("CB[%r]" % f["proc"] if f.get("proc") else ""))
+        ps = [p_ if d_ is None else "%s=%s" % (p_, d_) for p_, d_ in f.get("params", [])]
+        lines += ["def %s(%s)%s:" % (f["name"], ", ".join(ps), " -> %s" % f["ret"] if f.get("ret") else ""),
+                  "    return %s" % bodies[f["name"]], ""]
+    for i, c in enumerate(cases):
+        lines += ["", "def case_%d(ds):" % i, "    return ds.%s(%s)" % (c[0], ast.unparse(c[1]))]
+    path = os.path.join(_CALL_DIR, name + ".py")
+    with open(path, "w") as fh:
+        fh.write("\n".join(lines) + "\n")
+    spec = importlib.util.spec_from_file_location(name, path)
+    mod = importlib.util.module_from_spec(spec)
+    spec.loader.exec_module(mod)
+    fns = {(c[0], ast.dump(c[1])): getattr(mod, "case_%d" % i) for i, c in enumerate(cases)}
+
+    def run(model_, op, item, q):
+        model_.log.clear()
+        ds = model_.ObjectStream(ast.Name(id="ds", ctx=ast.Load()), item)
+        return _finish_impl(model_, lambda: fns[(op, ast.dump(q))](ds))
+    return run
+
+
+def callable_form_ok(q, funcs) -> bool:
+    """calls one of the registered functions ``funcs``; no directly called lambda (the callable path resolves those)"""
+    if any(isinstance(n, ast.Call) and isinstance(n.func, ast.Lambda) for n in ast.walk(q)):
+        return False
+    return any(isinstance(n, ast.Call) and isinstance(n.func, ast.Name) and n.func.id in funcs for n in ast.walk(q))
